@@ -12,7 +12,7 @@ void h_configure(HConfig &cfg) {
 
 void h_run(Case &c) {
   Draw &d = c.head;
-  SpecOpts so; so.syn.max_pus = 64; so.gen_flags = false; TopoSpec sp = gen_topospec(d, so);
+  SpecOpts so; so.syn.max_pus = 64; so.gen_flags = false; so.gx_num = 1; so.gx_den = 5; TopoSpec sp = gen_topospec(d, so);
   if (d.chance(1, 3)) sp.filters[HWLOC_OBJ_MEMCACHE] = HWLOC_TYPE_FILTER_KEEP_ALL;
   if (sp.is_xml && d.chance(1, 2)) sp.filters[HWLOC_OBJ_PCI_DEVICE] = sp.filters[HWLOC_OBJ_OS_DEVICE] = sp.filters[HWLOC_OBJ_BRIDGE] = HWLOC_TYPE_FILTER_KEEP_ALL;
   c.desc(sp.text()); hwloc_topology_t t; hwloc_topology_init(&t);
